@@ -83,6 +83,20 @@ bool load_source(World &w, int ri, const Plan &p, std::string &why) {
   else if (kind == "xmlbuf") {
     std::string path = repo_path() + "/tests/hwloc/xml/" + arg; FILE *f = fopen(path.c_str(), "rb"); std::string buf;
     if (f) { char tmp[65536]; size_t n; while ((n = fread(tmp, 1, sizeof tmp, f)) > 0) buf.append(tmp, n); fclose(f); }
+    // With IMPORT_SUPPORT, half of the corpus buffers (a bit of the seed) are given a <support> section naming EVERY support bit of the three public
+    // structures (the names are those of the struct members in hwloc.h): the only way a topology can advertise bits that no Linux back-end sets
+    // (e.g. membind.nexttouch_membind), for dup, XML export/import and adoption to carry
+    if ((flags & HWLOC_TOPOLOGY_FLAG_IMPORT_SUPPORT) && ((p.seed >> 31) & 1) && (w.cfg.is("C05") || w.cfg.is("C12") || w.cfg.is("C19"))) {
+      static const char *NAMES[] = {"discovery.pu", "discovery.numa", "discovery.numa_memory", "discovery.disallowed_pu", "discovery.disallowed_numa", "discovery.cpukind_efficiency",
+        "cpubind.set_thisproc_cpubind", "cpubind.get_thisproc_cpubind", "cpubind.set_proc_cpubind", "cpubind.get_proc_cpubind", "cpubind.set_thisthread_cpubind", "cpubind.get_thisthread_cpubind",
+        "cpubind.set_thread_cpubind", "cpubind.get_thread_cpubind", "cpubind.get_thisproc_last_cpu_location", "cpubind.get_proc_last_cpu_location", "cpubind.get_thisthread_last_cpu_location",
+        "membind.set_thisproc_membind", "membind.get_thisproc_membind", "membind.set_proc_membind", "membind.get_proc_membind", "membind.set_thisthread_membind", "membind.get_thisthread_membind",
+        "membind.set_area_membind", "membind.get_area_membind", "membind.alloc_membind", "membind.firsttouch_membind", "membind.bind_membind", "membind.interleave_membind",
+        "membind.nexttouch_membind", "membind.migrate_membind", "membind.get_area_memlocation", "membind.weighted_interleave_membind"};
+      std::string out; size_t pos = 0; while (pos < buf.size()) { size_t e = buf.find('\n', pos); if (e == std::string::npos) e = buf.size(); std::string line = buf.substr(pos, e - pos); pos = e + 1; if (line.find("<support ") == std::string::npos) out += line + "\n"; }
+      size_t end = out.rfind("</topology>");
+      if (end != std::string::npos) { std::string sup; for (auto n : NAMES) sup += std::string("  <support name=\"") + n + "\"/>\n"; out.insert(end, sup); buf = out; r.count("probe.source_with_every_support_bit"); }
+    }
     rc = hwloc_topology_set_xmlbuffer(t, buf.c_str(), (int)buf.size() + 1);
   } else if (kind == "snap") rc = snapshot_count() ? 0 : -1;   // "snap <index> <comp> [<env>]": an intact bundled Linux/x86 snapshot (ops_snapshot.cc); configured by the environment at load time
   else { why = "unknown source kind " + kind; hwloc_topology_destroy(t); return false; }
